@@ -210,6 +210,7 @@ var props = map[string]*propCfg{
 			mc("order", "MC_C05", "C11_C05.cfg", 10*time.Minute),
 			mc("distinct", "MC_C06", "C11_C06.cfg", 10*time.Minute),
 			mc("nested", "MC_C08", "C11_C08.cfg", 10*time.Minute),
+			mc("project", "MC_C02", "C11_C02.cfg", 10*time.Minute),
 			{Kind: "exec", Name: "texts", Mode: "texts", Timeout: 5 * time.Minute},
 		},
 	},
